@@ -24,4 +24,37 @@ PROPS = {
                 "(at least one frame overtakes an earlier-sent one). Distinct = hash of the whole case.",
         "assumptions": COMMON_ASSUME + ["orchestrated signing uses the harness's interactive BLS signer built from bls.TBLS.Sign and bls.Verifier.AggregateSignatures"],
     },
+    "C02": {
+        "module": "core", "pkg": "./checks", "level": "exploration",
+        "jobs": [
+            {"test": "TestC02R", "quick": 30000, "thorough": 2000000, "shards_thorough": 14},
+        ],
+        "rule": "Level R: rbc.Receiver instances (N in 3..5, 1..N-2 Byzantine members, >= 2 honest) wired by the harness; rapid draws honest sends, an "
+                "adversary script (different payloads to different parties, acks about itself / other Byzantine / honest / the receiver / outsiders with "
+                "digests of payloads in play, never-sent or random, replays of any logged frame, point-to-point) and a weighted delivery schedule. "
+                "Oracle: over all hand-offs of all honest parties, at most one broadcast payload per (sender, round). Non-trivial = the adversary "
+                "equivocated, forged or replayed at least once and at least one hand-off happened. Distinct = hash of the whole case.",
+        "assumptions": COMMON_ASSUME,
+    },
+    "C03": {
+        "module": "core", "pkg": "./checks", "level": "exploration",
+        "jobs": [
+            {"test": "TestC03R", "quick": 30000, "thorough": 2000000, "shards_thorough": 14},
+        ],
+        "rule": "Same generated runs as C02 (Level R). Oracle: every broadcast hand-off is non-nil, attributed to a participant, equals a payload that "
+                "the attributed sender transmitted directly to this party before the hand-off, and happens at most once per (party, sender, round); "
+                "every point-to-point hand-off equals the next received frame of that link. Non-trivial as for C02.",
+        "assumptions": COMMON_ASSUME,
+    },
+    "C04": {
+        "module": "core", "pkg": "./checks", "level": "exploration",
+        "jobs": [
+            {"test": "TestC04R", "quick": 30000, "thorough": 2000000, "shards_thorough": 14},
+        ],
+        "rule": "Level R, all honest, N in 2..5, up to 9 sends (broadcasts in rounds 1..3 by several senders, point-to-point), weighted delivery "
+                "schedule run to quiescence. Oracle: every broadcast handed exactly once to every other party, every point-to-point message exactly "
+                "once to its addressee, nothing else. Non-trivial = at least one ack was delivered before the payload it vouches for and at least two "
+                "senders broadcast. Distinct = hash of the whole case.",
+        "assumptions": COMMON_ASSUME,
+    },
 }
